@@ -50,7 +50,7 @@ def respond(t, srv, *, code=CONTENT, body=0, last=True, obs=None, nr=0, mtype=No
             unsendable=False):
     ev = ["P", t, srv, mtype, rel, code, obs, body, nr, maxretr, last]
     if unsendable:
-        ev.append(True)
+        ev.append(unsendable)          # True: cannot be serialised; "uncopyable": serialises, cannot be deep-copied
     return ev
 
 
@@ -237,6 +237,26 @@ def c14_sendfail(rng):
             "oracle_only": "synchronous-send-error"}
 
 
+def c14_send_raises():
+    """the transport's send() raises for a held-back message when its turn comes (k-th of the queue), at the ACK
+    or Reset that releases it: that message's request fails, the ones behind it are still transmitted in order,
+    and a response piggy-backed on the releasing ACK is still delivered (oracle only)"""
+    scripts = []
+    for k in (1, 2, 3):
+        for release in ("ack", "rst", "piggy"):
+            ev = [submit(1000, 0, 0, rel=True), submit(1010, 1, 0, rel=True), submit(1020, 2, 0, rel=True),
+                  submit(1030, 3, 0, rel=True), submit(1040, 4, 1, rel=True)]
+            rules = [{"remote": 1, "mtype": "CON", "nth": 1, "do": "ack", "after": 300},
+                     {"remote": 0, "mtype": "CON", "nth": 1, "do": release, "after": 5000, "body": 9}]
+            rules += [{"remote": 0, "mtype": "CON", "nth": n, "do": "piggy", "after": 5000, "body": 10 + n}
+                      for n in (2, 3, 4)]
+            ev.append(far_end(ev))
+            scripts.append({"events": ev, "rules": rules, "draws": [2 * M + 7 * i for i in range(6)],
+                            "send_raises": [100 + k], "oracle_only": "send-raises",
+                            "tag": f"send-raises:{k}:{release}"})
+    return scripts
+
+
 def c14_boundary():
     scripts = []
     # three CONs and a NON to A, one CON to B; ACK, RST, silence, error variations
@@ -347,6 +367,45 @@ def c04_random(rng, cfg):
     events.sort(key=lambda e: e[1])
     events.append(far_end(events))
     return {"events": events, "rules": rules, "draws": [], "mid": first_mid, "tag": "random"}
+
+
+def c04_boundary(cfg):
+    """request message IDs at the ends of the 16-bit space (0 is falsy in Python) x how the request was
+    acknowledged (piggy-backed, empty ACK of a slow handler, empty ACK of a suppressed response) x CON/NON:
+    every copy of a CON gets the acknowledgement that was sent, byte for byte; a NON copy gets nothing"""
+    scripts = []
+    EAD = cfg["emptyAckDelay"]
+    for mid in (0, 1, 0xFFFF):
+        for how in ("piggy", "empty", "suppressed"):
+            for mtype in ("CON", "NON"):
+                t = 5000
+                ev = [request_in(t, 0, mid, "b7", mtype=mtype, body=1),
+                      respond(t + (1000 if how != "empty" else 2 * EAD), 0, body=22,
+                              nr=26 if how == "suppressed" else 0),
+                      request_in(t + 5 * EAD, 0, mid, "b7", mtype=mtype, body=1),
+                      request_in(t + 3 * M, 0, mid, "b7", mtype=mtype, body=1)]
+                ev.append(far_end(ev))
+                rules = [{"remote": 0, "mtype": "CON", "nth": 1, "do": "ack", "after": 500}]
+                scripts.append({"events": ev, "rules": rules, "draws": [], "tag": f"request-mid:{mid}:{how}:{mtype}"})
+    return scripts
+
+
+def c04_uncopyable(cfg):
+    """a piggy-backed response that serialises but cannot be deep-copied (an opaque option set to a memoryview):
+    copies of the request still get the acknowledgement that was sent (oracle only: the model has no options)"""
+    scripts = []
+    EAD = cfg["emptyAckDelay"]
+    for speed in ("fast", "slow"):
+        t = 5000
+        ev = [request_in(t, 0, 4660, "aa", mtype="CON", body=1),
+              respond(t + (1000 if speed == "fast" else 2 * EAD), 0, body=21, unsendable="uncopyable"),
+              request_in(t + 5 * EAD, 0, 4660, "aa", mtype="CON", body=1),
+              request_in(t + 3 * M, 0, 4660, "aa", mtype="CON", body=1)]
+        ev.append(far_end(ev))
+        rules = [{"remote": 0, "mtype": "CON", "nth": 1, "do": "ack", "after": 500}]
+        scripts.append({"events": ev, "rules": rules, "draws": [], "oracle_only": "uncopyable-response",
+                        "tag": f"uncopyable-ack:{speed}"})
+    return scripts
 
 
 def c04_alias(rng, cfg):
@@ -740,6 +799,27 @@ def c18_random(rng, cfg):
     return {"events": events, "rules": s["rules"], "draws": s["draws"], "tag": "random"}
 
 
+def c18_twice(rng, cfg):
+    """the application calls shutdown() a second time: from another task while the first call is still in
+    progress (same tick), or later (clean-up code that does not know it has run already)"""
+    s = c18_random(rng, cfg)
+    ts = [e[1] for e in s["events"] if e[0] == "X"][0]
+    events = [e for e in s["events"] if e[0] != "A"]
+    used = {e[1] for e in events}
+    if rng.random() < 0.5:
+        events.append(["X", ts, False, True])                 # concurrent
+        kind = "concurrent"
+    else:
+        t2 = ts + rng.choice([1, 1000, 2 * M, 10 * M])
+        while t2 in used:
+            t2 += 1
+        events.append(["X", t2])
+        kind = "later"
+    events.sort(key=lambda e: e[1])
+    events.append(far_end(events))
+    return dict(s, events=events, tag="shutdown-twice:" + kind)
+
+
 def c18_handler(rng):
     """a served request whose handler awaits a request of its own through the same context (as the
     forward proxy does); shutdown while it waits.  Oracle-only."""
@@ -818,9 +898,18 @@ def c18_obs_consumer(rng):
                                  ["X", ts, rng.random() < 0.7]]])
     else:
         events.append(["X", ts])
+    tag = "observation-consumer"
+    if rng.random() < 0.35:
+        # the application stops the task that iterates (worker cancelled, wait_for around the iteration timed out)
+        # some time before it shuts the context down; another request is outstanding and must still be failed
+        tk = clock.at(max(1600, ts - rng.choice([1, 1000, M])))
+        if tk < ts:
+            events.append(["K", tk, 0])
+            events.append(submit(clock.at(max(1700, tk - 50)), 1, 1, rel=False))
+            tag = "observation-consumer-cancelled"
     events.sort(key=lambda e: e[1])
     events.append(far_end(events))
-    return {"events": events, "rules": rules, "draws": [], "tag": "observation-consumer", "consume": True,
+    return {"events": events, "rules": rules, "draws": [], "tag": tag, "consume": True,
             "oracle_only": "application-iterates-observation", "second_context": True}
 
 
